@@ -217,3 +217,51 @@ def payloads(rep, f, c, rule):
                 rep.ob(rule, '%s:payload#%s' % (name, '+'.join(sorted(og))), ok,
                        'Unmappable payload does not derive from the character fetched in this iteration (origins: %s)' % sorted(og), at, {'origins': sorted(og)}, c)
     rep.floor(rule, 'Unmappable payload sites', n, 50, c)
+
+
+# small tables that are searched whole, in one place, behind a range guard: confirmed on the pinned tree that every entry passes
+# the guard (the guard is a pre-filter, the table is the mapping).  An entry outside the guard can never be found: the mapping the
+# Standard prescribes for it (gb18030-2022 PUA overrides, the KS X 1001 / GB 2312 symbol rows) is lost.  Tables with entries that
+# are deliberately handled elsewhere (GB2312_PINYIN: U+1E3F; the sliced GB2312_SYMBOLS / KSX1001_SYMBOLS / GBK_BOTTOM) are not listed.
+GUARDED_TABLES = ('gb18030_2022::GB18030_2022_OVERRIDE_PUA', 'data::GB2312_SYMBOLS_AFTER_GREEK', 'data::KSX1001_LOWERCASE', 'data::KSX1001_UPPERCASE',
+                  'data::KSX1001_BOX')
+
+
+def guarded_tables(rep, f, c, rule):
+    import json as _json
+    n = 0
+    for name, b in sorted(f.bodies.items()):
+        r = None
+        for bi, t in b.calls():
+            if (b.callee(t) or '') != 'data::position' or len(t['args']) != 2:
+                continue
+            r = r or Resolver(b)
+            a0 = strip_ref(r.operand(t['args'][0]))
+            while a0[0] in ('deref', 'ref'):
+                a0 = strip_ref(a0[1])
+            # the whole table: &T[..]
+            if not (a0[0] == 'call' and len(a0[2]) == 2 and a0[2][1][0] == 'agg' and a0[2][1][1].endswith('RangeFull::RangeFull')):
+                continue
+            base = strip_ref(a0[2][0])
+            while base[0] in ('deref', 'ref'):
+                base = strip_ref(base[1])
+            if not (base[0] == 'cptr' and '"static"' in base[1]):
+                continue
+            tname = _json.loads(base[1]).get('static')
+            if tname not in GUARDED_TABLES or tname not in f.statics:
+                continue
+            raw = bytes.fromhex(f.statics[tname]['alloc']['bytes'])
+            tab = [raw[i] | (raw[i + 1] << 8) for i in range(0, len(raw), 2)]
+            leaf = strip_ref(r.operand(t['args'][1]))
+            if leaf[0] != 'loc' or b.locals[leaf[1]]['ty'] != 'u16':
+                continue
+            ra = RangeAnalysis(f, b, {leaf}, 16, ISet.of((0, 0xFFFF)), opaque_ok=True, N=0x10000)
+            if ra.mixed:
+                continue
+            reach = ra.reach_of(bi)
+            miss = sorted({v for v in tab if v and v not in reach})
+            n += 1
+            rep.ob(rule, '%s:%s' % (name, tname.rsplit('::', 1)[-1]), not miss,
+                   'the table %s is searched only for code units in %r, but it holds entries outside that set which can therefore never be found: %s'
+                   % (tname, reach, ', '.join('U+%04X' % v for v in miss[:6])), sp_str(b.blocks[bi]['tsp']), {'entries': len(tab), 'guard': repr(reach)}, c)
+    return n
